@@ -97,6 +97,8 @@ class Walker:
         self.consts = {}   # module-level NAME = constant
         self.depth = 0
         self.in_helper = False
+        self.loopenv = {}     # loop variable -> source texts of the values it takes (for x, C, ... in ((a, Arc, ...), (b, Helix, ...)))
+        self.paramenv = {}    # parameter of the helper being walked -> source texts of the values passed for it
         for n in (tree.body if tree is not None else []):
             if isinstance(n, ast.FunctionDef) and n.name != 'main':
                 self.funcs[n.name] = n
@@ -128,7 +130,13 @@ class Walker:
         for n in ast.walk(e):
             if isinstance(n, ast.Call):
                 f = ast.unparse(n.func)
-                if f in RAISING_CALL:
+                if f in self.paramenv:
+                    # the callee is a parameter of the helper: one of the values passed at the call in main
+                    for v in self.paramenv[f]:
+                        if v in RAISING_CALL: self.site(n, RAISING_CALL[v], ctx)
+                        elif v in BENIGN_NAMES: pass
+                        else: raise Fail('line %d: parameter %s may be %s, which is neither a known raising primitive nor known not to raise' % (n.lineno, f, v))
+                elif f in RAISING_CALL:
                     self.site(n, RAISING_CALL[f], ctx)
                 elif f in self.funcs and f not in BENIGN_NAMES:
                     # a helper function of the same module: its operations are performed here, inside the try statements
@@ -136,17 +144,26 @@ class Walker:
                     if self.depth >= 3:
                         raise Fail('line %d: helper functions nested too deeply at %s' % (n.lineno, f))
                     fn = self.funcs[f]
-                    params = {a.arg for a in fn.args.args + fn.args.kwonlyargs}
+                    plist = [a.arg for a in fn.args.args]
+                    params = set(plist) | {a.arg for a in fn.args.kwonlyargs}
+                    penv = {}
+                    for k, a in enumerate(n.args):
+                        if k < len(plist) and isinstance(a, ast.Name):
+                            if a.id in self.loopenv: penv[plist[k]] = self.loopenv[a.id]
+                            elif a.id in RAISING_CALL or a.id in BENIGN_NAMES: penv[plist[k]] = [a.id]
+                    for kw in n.keywords:
+                        if isinstance(kw.value, ast.Name) and kw.value.id in self.loopenv: penv[kw.arg] = self.loopenv[kw.value.id]
                     for sub in ast.walk(fn):
-                        if isinstance(sub, ast.Call) and isinstance(sub.func, ast.Name) and sub.func.id in params:
-                            raise Fail('line %d: helper %s calls its parameter %s' % (sub.lineno, f, sub.func.id))
+                        if isinstance(sub, ast.Call) and isinstance(sub.func, ast.Name) and sub.func.id in params and sub.func.id not in penv:
+                            raise Fail('line %d: helper %s calls its parameter %s, whose values at this call are not known' % (sub.lineno, f, sub.func.id))
                         if isinstance(sub, (ast.FunctionDef, ast.Lambda)) and sub is not fn and isinstance(sub, ast.FunctionDef):
                             raise Fail('line %d: nested function in helper %s' % (sub.lineno, f))
                     self.depth += 1; old = self.in_helper; self.in_helper = True
+                    oldp = self.paramenv; self.paramenv = penv
                     try:
                         self.stmts([b for b in fn.body if not (isinstance(b, ast.Expr) and isinstance(b.value, ast.Constant))], ctx)
                     finally:
-                        self.depth -= 1; self.in_helper = old
+                        self.depth -= 1; self.in_helper = old; self.paramenv = oldp
                 elif f in BENIGN_NAMES:
                     pass
                 elif isinstance(n.func, ast.Attribute) and n.func.attr in BENIGN_METHODS:
@@ -180,6 +197,11 @@ class Walker:
                 for b in h.body:
                     self.stmt(b, ctx)
         elif isinstance(s, (ast.For, ast.While)):
+            if isinstance(s, ast.For) and isinstance(s.target, ast.Tuple) and isinstance(s.iter, ast.Tuple) \
+               and all(isinstance(e, ast.Tuple) and len(e.elts) == len(s.target.elts) for e in s.iter.elts):
+                for k, t in enumerate(s.target.elts):
+                    if isinstance(t, ast.Name):
+                        self.loopenv[t.id] = [ast.unparse(e.elts[k]) for e in s.iter.elts]
             self.expr(s.iter if isinstance(s, ast.For) else s.test, ctx)
             self.stmts(s.body, ctx)
             self.stmts(s.orelse, ctx)
